@@ -32,6 +32,7 @@ def run(ctx, rep):
         check_dumpvar(crate, opt, vm, rep, cfg)
         check_fused_load(crate, vm, rep, cfg)
         check_fused_write(crate, vm, rep, cfg)
+        check_fused_root(crate, vm, rep, cfg)
 
 
 def check_fused_load(crate, vm, rep, cfg):
@@ -96,6 +97,54 @@ def check_fused_load(crate, vm, rep, cfg):
                     ok = False
     rep.add("C09.FUSED", "C09.FUSED:WritePath:missing-attribute-is-an-error", ok, vm.where(ga[0][0]) if ga else vm.where(0), "in the fused WritePath arm the None edge of get_attr reaches "
             "the next instruction only through undefined_field_error (never prints a missing field)" + ("" if ok else " — VIOLATED"))
+
+
+def check_fused_root(crate, vm, rep, cfg):
+    """C09.FUSED — the first segment of a fused path is resolved exactly like the LoadName it replaces: by State::get_value(path[0]), called
+    in the arm itself — not through a memo or another resolver whose answer can differ from a fresh lookup."""
+    from props.c03 import vm_arm
+    tr = Tracer(vm)
+    ln = crate.one("vm::state::State::<'t>::load_name")
+    ref = [callee_def(t) for bb, t in ln.calls() if callee_def(t).endswith("::get_value")]
+    for variant in ("LoadPath", "WritePath"):
+        reg = vm_arm(vm, crate, variant)
+        gv = [(bb, t) for bb, t in vm.calls(sorted(reg)) if callee_def(t).endswith("State::<'t>::get_value")]
+        others = sorted({callee_def(t).rsplit("::", 1)[-1] for bb, t in vm.calls(sorted(reg))
+                         if "vm::state::State" in callee_def(t) and callee_def(t).rsplit("::", 1)[-1] not in ("get_value", "dump_context")})
+        ok = len(gv) == 1 and not others and bool(ref)
+        why = "%d get_value calls, other State resolvers: %s" % (len(gv), others)
+        if ok:
+            al = [l for l in tr.operand(gv[0][1]["args"][1]) if l.kind != "cycle"]
+            ok = bool(al)
+            for l in al:
+                # `&path[0]`: Index::index(path, 0) with `path` the opcode's payload
+                good = False
+                if l.kind == "call" and l.detail[0] == "std::ops::Index::index":
+                    it = vm.term(l.detail[2])
+                    pl = [x for x in tr.operand(it["args"][0]) if x.kind != "cycle"]
+                    ix = it["args"][1]
+                    good = bool(pl) and all(("as:" + variant) in x.projs for x in pl) and ix["k"] == "const" and str(ix.get("v")) == "0"
+                elif ("as:" + variant) in l.projs:
+                    good = True
+                ok = ok and good
+            why = "get_value is not asked for the path's own first segment"
+        if ok:
+            # ... and that fresh answer is THE root: whatever the arm tests with is_undefined / walks with get_attr comes from get_value,
+            # dump_context or an earlier get_attr — not from a remembered value (holds on the inlined body too, where a caching helper
+            # would otherwise hide behind "the arm contains a get_value call")
+            ctr = Tracer(vm, transparent=set(TRANSPARENT_CALLS) | {"std::option::Option::<&T>::cloned", "std::option::Option::<T>::unwrap_or_else"})
+            for bb2, t2 in vm.calls(sorted(reg)):
+                if callee_def(t2).endswith("value::Value::is_undefined") or callee_def(t2).endswith("value::Value::get_attr"):
+                    for l in ctr.operand(t2["args"][0]):
+                        if l.kind == "cycle":
+                            continue
+                        good = l.kind == "call" and (l.detail[0].endswith("::get_value") or l.detail[0].endswith("::dump_context") or l.detail[0].endswith("::get_attr")
+                                                     or l.detail[0].endswith("Value::undefined") or l.detail[0].endswith("stack::Stack::pop"))
+                        if not good:
+                            ok = False
+                            why = "a root / segment value comes from %s, not from a fresh lookup" % leaf_str(l)
+        rep.add("C09.FUSED", "C09.FUSED:%s:root-resolved-like-LoadName" % variant, ok, vm.where(gv[0][0]) if gv else vm.where(0), "the %s arm resolves the path's first segment with "
+                "State::get_value (what LoadName does), directly" % variant + ("" if ok else " — VIOLATED: " + why))
 
 
 def check_fused_write(crate, vm, rep, cfg):
